@@ -128,7 +128,6 @@ ASSUMPTIONS = [
     "where both go through compressed_contract_stats, never between the path optimisers' tracker and the tree (O2)",
     "widening: trial['size'] of the write objective may be write, max_size or peak_size; no score formula is assumed, only "
     "that a score with the secondary weight 0 orders by the objective's own figure",
-    "widening: compressed_reconfigure is driven with objectives that name their chi (chi='auto' raises: PENDING-FINDING F1)",
     "widening: an exception inside WindowedOptimizer.refine / simulated_anneal called directly is tallied under 'excluded' "
     "(whether the optimisers return is the finder monitor's business through windowed_reconfigure / simulated_anneal)",
 ]
@@ -1640,10 +1639,10 @@ def gen_history2_case(rng, cs, tier):
                 "minimize": rng.choice(HIST_MINIMIZE), "seed": rng.randrange(10**6),
             })
             continue
-        # PENDING-FINDING (FINDINGS_widen-b.md, F1): compressed_reconfigure with an objective that has no explicit
-        # chi (chi='auto': its own default minimize=None, 'peak-compressed', 'write', ...) raises TypeError as soon
-        # as two bonds are merged; that input class is excluded here so that the rest can be validated
-        spec = gen_objective_spec(rng, explicit_chi=True)
+        # objectives without an explicit chi (chi='auto', also the method's own default minimize=None) are part of
+        # the workload since the repair of F1 (FINDINGS_widen-b.md; fix 24b738c in /repo)
+        # (minimize=None means the tree's own default objective: only a ContractionTreeCompressed has a compressed one)
+        spec = None if (case["cls"] == "compressed" and rng.random() < 0.2) else gen_objective_spec(rng)
         steps.append({
             "op": "compressed_reconfigure", "objective": spec, "inplace": rng.random() < 0.5, "partial": rng.random() < 0.5,
             "order_only": rng.random() < 0.4,
@@ -1655,7 +1654,7 @@ def gen_history2_case(rng, cs, tier):
             steps[-1].update(max_nodes="auto", max_time=0.25)
     if not any(s.get("op") == "compressed_reconfigure" for s in steps):
         steps[-1:] = [{
-            "op": "compressed_reconfigure", "objective": gen_objective_spec(rng, explicit_chi=True),
+            "op": "compressed_reconfigure", "objective": gen_objective_spec(rng),
             "inplace": rng.random() < 0.5, "partial": rng.random() < 0.5, "order_only": rng.random() < 0.4,
             "max_nodes": rng.choice([5, 50, 300]), "exploration_power": rng.choice([0, 0, 0.5, 2]),
         }]
